@@ -12,6 +12,12 @@ type Script struct {
 	Lines     []string   // complete input lines received
 	Return    byte
 	line      []byte
+	// Echo makes the device echo typed bytes (everything but the return), one chunk per Write call,
+	// tagged Emission -1.
+	Echo bool
+	// Special: a complete input line equal to a key is answered with that emission (tagged -2)
+	// instead of the next scripted one (used for operations a callback function runs itself).
+	Special map[string][][]byte
 	// EmittedChunks lists every chunk emitted so far, in order, with the index of its emission.
 	EmittedChunks []ScriptChunk
 }
@@ -30,14 +36,40 @@ func NewScript(emissions [][][]byte) *Script {
 }
 
 func (s *Script) onWrite(b []byte) {
+	var echo []byte
+	flush := func() {
+		if s.Echo && len(echo) > 0 {
+			s.emitChunks(-1, [][]byte{echo})
+		}
+		echo = nil
+	}
 	for _, ch := range b {
 		if ch == s.Return {
-			s.Lines = append(s.Lines, string(s.line))
+			flush()
+			line := string(s.line)
+			s.Lines = append(s.Lines, line)
 			s.line = nil
-			s.EmitNext()
+			if sp, ok := s.Special[line]; ok {
+				s.emitChunks(-2, sp)
+			} else {
+				s.EmitNext()
+			}
 			continue
 		}
 		s.line = append(s.line, ch)
+		echo = append(echo, ch)
+	}
+	flush()
+}
+
+func (s *Script) emitChunks(tag int, chunks [][]byte) {
+	for _, c := range chunks {
+		if len(c) == 0 {
+			continue
+		}
+		s.Emit(c)
+		s.EmitBarrier()
+		s.EmittedChunks = append(s.EmittedChunks, ScriptChunk{tag, append([]byte{}, c...)})
 	}
 }
 
